@@ -1,4 +1,5 @@
 (* The related-text search returns exactly the relation: sound, complete, no duplicates. *)
+From Coq Require Import Permutation.
 From Stam Require Import Base.Tac Base.ListAux Model.Rel Model.Search Proofs.Rel.
 
 Definition dflt := mkts None 0 0.
@@ -58,41 +59,245 @@ Qed.
 Section WithText.
   Variable ws : list bool.
 
-  (* every selection for which the test can hold lies in the searched range *)
-  Lemma range_sound o R c len : set_ok R -> items R <> [] -> tb c <= te c -> te c <= len ->
-    test_set_ts ws o R c = true ->
-    match search_range o R len with
+  Lemma leftmost_from_le l : forall cur x, (x = cur \/ In x l) -> tb (leftmost_from cur l) <= tb x.
+  Proof.
+    induction l as [|y l IH]; intros cur x Hx; cbn [leftmost_from].
+    - destruct Hx as [->|[]]. lia.
+    - destruct (tb y <? tb cur) eqn:E.
+      + destruct Hx as [->|[->|Hx]].
+        * specialize (IH y y (or_introl eq_refl)). lia.
+        * apply IH. left; reflexivity.
+        * apply IH. right; exact Hx.
+      + destruct Hx as [->|[->|Hx]].
+        * apply IH. left; reflexivity.
+        * specialize (IH cur cur (or_introl eq_refl)). lia.
+        * apply IH. right; exact Hx.
+  Qed.
+
+  Lemma rightmost_from_ge l : forall cur x, (x = cur \/ In x l) -> te x <= te (rightmost_from cur l).
+  Proof.
+    induction l as [|y l IH]; intros cur x Hx; cbn [rightmost_from].
+    - destruct Hx as [->|[]]. lia.
+    - destruct (te cur <? te y) eqn:E.
+      + destruct Hx as [->|[->|Hx]].
+        * specialize (IH y y (or_introl eq_refl)). lia.
+        * apply IH. left; reflexivity.
+        * apply IH. right; exact Hx.
+      + destruct Hx as [->|[->|Hx]].
+        * apply IH. left; reflexivity.
+        * specialize (IH cur cur (or_introl eq_refl)). lia.
+        * apply IH. right; exact Hx.
+  Qed.
+
+  Lemma leftmost_le A Lm x : set_ok A -> leftmost A = Some Lm -> In x (items A) -> tb Lm <= tb x.
+  Proof.
+    intros [Hs _]. unfold leftmost. destruct (items A) as [|y l]; [discriminate|].
+    destruct (sorted A).
+    - intros H; inversion H; subst; clear H. intros [->|Hx]; [lia|].
+      specialize (Hs eq_refl). inversion Hs as [|? ? _ Hall]; subst.
+      rewrite Forall_forall in Hall. specialize (Hall _ Hx). unfold ts_le in Hall. lia.
+    - intros H; inversion H; subst; clear H. intros Hx. apply leftmost_from_le.
+      destruct Hx as [->|Hx]; [left; reflexivity|right; exact Hx].
+  Qed.
+
+  Lemma rightmost_ge A Rm x : rightmost A = Some Rm -> In x (items A) -> te x <= te Rm.
+  Proof.
+    unfold rightmost. destruct (items A) as [|y l]; [discriminate|].
+    intros H; inversion H; subst; clear H. intros Hx. apply rightmost_from_ge.
+    destruct Hx as [->|Hx]; [left; reflexivity|right; exact Hx].
+  Qed.
+
+  (* what a successful positive pair test says about the candidate (second argument) *)
+  Definition pp_facts (o : op) (s c : ts) : Prop :=
+    match orel o with
+    | Equals | InSet | SameRange => tb s = tb c /\ te s = te c
+    | Overlaps => (tb s <= tb c /\ tb c < te s) \/ (tb s < te c /\ te c <= te s)
+                  \/ (tb c <= tb s /\ te s <= te c) \/ (tb s <= tb c /\ te c <= te s)
+    | Embeds => tb s <= tb c /\ te c <= te s
+    | Embedded => tb c <= tb s /\ te s <= te c
+                  /\ match olim o with Some l => tb s - tb c <= l /\ te c - te s <= l | None => True end
+    | Before => te s <= tb c /\ match olim o with Some l => tb c - te s <= l | None => True end
+    | After => te c <= tb s /\ match olim o with Some l => tb s - te c <= l | None => True end
+    | Precedes => te s <= tb c /\ tb c - te s <= (if ows o then WHITESPACE_LIMIT else 0)
+    | Succeeds => te c <= tb s /\ tb s - te c <= (if ows o then WHITESPACE_LIMIT else 0)
+    | SameBegin => tb s = tb c
+    | SameEnd => te s = te c
+    end.
+
+  Lemma pos_pair_facts o s c : pos_pair ws o s c = true -> pp_facts o s c.
+  Proof.
+    unfold pos_pair, pp_facts, ts_eqb. destruct o as [rl al ng lm w]; cbn [orel olim ows].
+    destruct rl; try (destruct lm as [lim|]); try lia.
+    - (* Precedes *)
+      destruct w; cbn [negb]; [|lia].
+      destruct (te s <=? tb c) eqn:E1; [|discriminate].
+      destruct (Nat.eqb (tb c - te s) 0) eqn:E2; [lia|].
+      intros H. apply gap_ws_meaning in H. lia.
+    - destruct w; cbn [negb]; [|lia].
+      destruct (te s <=? tb c) eqn:E1; [|discriminate].
+      destruct (Nat.eqb (tb c - te s) 0) eqn:E2; [lia|].
+      intros H. apply gap_ws_meaning in H. lia.
+    - (* Succeeds *)
+      destruct w; cbn [negb]; [|lia].
+      destruct (te c <=? tb s) eqn:E1; [|discriminate].
+      destruct (Nat.eqb (tb s - te c) 0) eqn:E2; [lia|].
+      intros H. apply gap_ws_meaning in H. lia.
+    - destruct w; cbn [negb]; [|lia].
+      destruct (te c <=? tb s) eqn:E1; [|discriminate].
+      destruct (Nat.eqb (tb s - te c) 0) eqn:E2; [lia|].
+      intros H. apply gap_ws_meaning in H. lia.
+  Qed.
+
+  Definition in_range (rg : nat * nat * dir) (c : ts) : Prop :=
+    match rg with
     | (lo, hi, Fwd) => lo <= tb c < hi
     | (lo, hi, Bwd) => lo <= te c < hi
     end.
+
+  (* which extreme members of the reference set the positive test constrains *)
+  Lemma pos_set_ts_extremes o R c Lm Rm :
+    leftmost R = Some Lm -> rightmost R = Some Rm ->
+    pos_set_ts ws o R c = true ->
+    match orel o, oall o with
+    | SameRange, _ => tb Lm = tb c /\ te Rm = te c
+    | (Precedes | Before | SameEnd), true => pp_facts o Rm c
+    | (Succeeds | After | SameBegin), true => pp_facts o Lm c
+    | _, _ => pp_facts o Lm c /\ pp_facts o Rm c
+    end.
+  Proof.
+    intros EL ER. unfold pos_set_ts. rewrite EL, ER.
+    pose proof (leftmost_In _ _ EL) as HinL. pose proof (rightmost_In _ _ ER) as HinR.
+    assert (Hall : forallb (fun a => pos_pair ws o a c) (items R) = true ->
+                   pp_facts o Lm c /\ pp_facts o Rm c).
+    { intros H. rewrite forallb_forall in H. split; apply pos_pair_facts, H; assumption. }
+    destruct (orel o) eqn:Er; destruct (oall o) eqn:Ea; intros Ht;
+      try (apply Hall; exact Ht); try (apply pos_pair_facts; exact Ht); lia.
+  Qed.
+
+  (* every selection for which the (positive) test can hold lies in the searched range *)
+  Lemma range_sound o R c len : set_ok R -> items R <> [] -> tb c <= te c -> te c <= len ->
+    test_set_ts ws o R c = true -> in_range (search_range o R len) c.
   Proof.
     intros HR Hne Hc Hlen Ht. unfold test_set_ts in Ht.
     destruct (items R) as [|x0 xs] eqn:EI; [contradiction|]. cbn [is_nil] in Ht. rewrite <- EI in *.
     destruct (leftmost R) as [Lm|] eqn:EL; [|unfold leftmost in EL; rewrite EI in EL; destruct (sorted R); discriminate].
     destruct (rightmost R) as [Rm|] eqn:ER; [|unfold rightmost in ER; rewrite EI in ER; discriminate].
     pose proof (leftmost_In _ _ EL) as HinL. pose proof (rightmost_In _ _ ER) as HinR.
+    pose proof (leftmost_le _ _ _ HR EL HinR) as HLR.
+    pose proof (rightmost_ge _ _ _ ER HinL) as HRL.
     destruct HR as [_ Hwf]. rewrite Forall_forall in Hwf.
     pose proof (Hwf _ HinL) as HwL. pose proof (Hwf _ HinR) as HwR. unfold wf in HwL, HwR.
     unfold search_range, ref_begin, ref_end. rewrite EL, ER.
-    destruct (oneg o) eqn:En; [lia|].
-    unfold pos_set_ts in Ht. rewrite EL, ER in Ht.
-    assert (Hall : forallb (fun a => pos_pair ws o a c) (items R) = true ->
-                   pos_pair ws o Lm c = true /\ pos_pair ws o Rm c = true).
-    { intros H. rewrite forallb_forall in H. split; apply H; assumption. }
-    destruct o as [rl al ng lm w]. cbn [orel oall oneg olim ows] in *.
-    destruct rl; destruct al;
-      try (apply Hall in Ht; destruct Ht as [HL HM]);
-      unfold pos_pair, ts_eqb in *; cbn [orel olim ows] in *;
-      destruct lm as [lim|]; destruct w; cbn [negb] in *;
-      repeat match goal with
-             | |- context [if ?b then _ else _] => let E := fresh "E" in destruct b eqn:E
-             end;
-      unfold WHITESPACE_LIMIT in *;
-      repeat match goal with
-             | H : context [gap_ws _ _ _] |- _ =>
-                 let G := fresh "G" in
-                 destruct (gap_ws _ _ _) eqn:G in H; [apply gap_ws_meaning in G; unfold WHITESPACE_LIMIT in G|]
-             end;
-      try lia.
+    destruct (oneg o) eqn:En; [cbn [in_range]; lia|].
+    pose proof (pos_set_ts_extremes o R c Lm Rm EL ER Ht) as HF. clear Ht.
+    unfold pp_facts in HF. unfold WHITESPACE_LIMIT in *.
+    destruct (orel o) eqn:Er; destruct (oall o) eqn:Ea;
+      try (destruct (olim o) as [lim|] eqn:El); try (destruct (ows o) eqn:Ew);
+      cbn [in_range];
+      try match goal with
+          | |- context [tb Lm <=? ?x] => destruct (tb Lm <=? x) eqn:Eh; cbn [in_range]
+          end;
+      lia.
+  Qed.
+
+  Lemma keep_lt o R K h : keep ws o R K h = true -> test_set_ts ws o R (nth h K dflt) = true.
+  Proof. unfold keep. fold dflt. intros H. apply andb_true_iff in H. tauto. Qed.
+
+  Definition generic (o : op) : Prop :=
+    match orel o, oall o, oneg o with Equals, false, false => False | _, _, _ => True end.
+
+  Lemma search_generic o R K len : generic o ->
+    search ws o R K len =
+    (let '(lo, hi, d) := search_range o R len in
+     let found := filter (keep ws o R K) (walk d lo hi K) in
+     match d with Fwd => found | Bwd => rev found end).
+  Proof.
+    unfold generic, search. destruct (orel o); destruct (oall o); destruct (oneg o); tauto.
+  Qed.
+
+  Lemma search_In o R K len h : generic o ->
+    (In h (search ws o R K len) <->
+     keep ws o R K h = true /\ h < length K /\ in_range (search_range o R len) (nth h K dflt)).
+  Proof.
+    intros G. rewrite (search_generic _ _ _ _ G).
+    destruct (search_range o R len) as [[lo hi] d]. cbn [in_range].
+    destruct d; rewrite <- ?in_rev, filter_In, ?walk_fwd_In, ?walk_bwd_In; tauto.
+  Qed.
+
+  (** soundness: everything returned is a known selection in the relation, and not the reference *)
+  Theorem search_sound o R K len h : generic o ->
+    In h (search ws o R K len) -> In h (related ws o R K).
+  Proof.
+    intros G H. apply (search_In _ _ _ _ _ G) in H. unfold related.
+    apply filter_In. split; [apply in_seq; lia|tauto].
+  Qed.
+
+  (** completeness: every known selection in the relation is returned *)
+  Theorem search_complete o R K len h : generic o ->
+    set_ok R -> items R <> [] -> known_ok K len ->
+    In h (related ws o R K) -> In h (search ws o R K len).
+  Proof.
+    intros G HR Hne HK H. unfold related in H. apply filter_In in H. destruct H as [Hh Hk].
+    apply in_seq in Hh. apply (search_In _ _ _ _ _ G). split; [exact Hk|]. split; [lia|].
+    destruct (HK h ltac:(lia)) as (H1 & H2 & _).
+    apply range_sound; try assumption. apply keep_lt. exact Hk.
+  Qed.
+
+  (** each once *)
+  Theorem search_nodup o R K len : generic o -> NoDup (search ws o R K len).
+  Proof.
+    intros G. rewrite (search_generic _ _ _ _ G).
+    destruct (search_range o R len) as [[lo hi] d].
+    destruct d; [|apply NoDup_rev]; apply NoDup_filter, NoDup_walk.
+  Qed.
+
+  (** hence: the result is a permutation of the relation *)
+  Theorem search_is_relation o R K len : generic o ->
+    set_ok R -> items R <> [] -> known_ok K len ->
+    Permutation (search ws o R K len) (related ws o R K).
+  Proof.
+    intros G HR Hne HK. apply NoDup_Permutation.
+    - apply search_nodup; exact G.
+    - apply NoDup_filter, seq_NoDup.
+    - intros h. split; [apply search_sound; exact G|apply search_complete; assumption].
+  Qed.
+
+  (** the reference itself is never returned by the generic search *)
+  Theorem search_not_reference o R K len h : generic o ->
+    In h (search ws o R K len) -> has_handle R h = false.
+  Proof.
+    intros G H. apply (search_In _ _ _ _ _ G) in H. destruct H as [H _].
+    unfold keep in H. apply andb_true_iff in H. destruct H as [_ H]. apply negb_true_iff in H. exact H.
+  Qed.
+
+  (** Equals (plain): the known selections with exactly the reference ranges *)
+  Lemma known_Some K t h : known K t = Some h ->
+    h < length K /\ tb (nth h K dflt) = tb t /\ te (nth h K dflt) = te t.
+  Proof.
+    unfold known. intros H. apply find_some in H. destruct H as [H1 H2].
+    apply in_seq in H1. fold dflt in H2. apply andb_true_iff in H2. rewrite !Nat.eqb_eq in H2. lia.
+  Qed.
+
+  Theorem equals_shortcut_sound K refs h : In h (equals_shortcut K refs) ->
+    h < length K /\ exists r, In r refs /\ tb (nth h K dflt) = tb r /\ te (nth h K dflt) = te r.
+  Proof.
+    induction refs as [|r refs IH]; cbn [equals_shortcut]; [intros []|].
+    destruct (known K r) as [k|] eqn:E; [|intros []].
+    intros [<-|H].
+    - apply known_Some in E. split; [tauto|]. exists r. split; [left; reflexivity|tauto].
+    - destruct (IH H) as (H1 & r' & H2 & H3). split; [exact H1|]. exists r'. split; [right; exact H2|exact H3].
+  Qed.
+
+  Theorem equals_single_complete K r h len : known_ok K len ->
+    h < length K -> tb (nth h K dflt) = tb r -> te (nth h K dflt) = te r ->
+    (forall h', h' < length K -> tb (nth h' K dflt) = tb r -> te (nth h' K dflt) = te r -> h' = h) ->
+    equals_shortcut K [r] = [h].
+  Proof.
+    intros HK Hh Hb He Huniq. cbn [equals_shortcut].
+    destruct (known K r) as [k|] eqn:E.
+    - apply known_Some in E. destruct E as (E1 & E2 & E3). rewrite (Huniq k E1 E2 E3). reflexivity.
+    - unfold known in E. exfalso.
+      pose proof (find_none _ _ E h ltac:(apply in_seq; lia)) as Hn. cbv beta in Hn. fold dflt in Hn.
+      rewrite Hb, He, !Nat.eqb_refl in Hn. discriminate.
   Qed.
 End WithText.
